@@ -34,6 +34,7 @@ type HarnessResult struct {
 	QSat          int               `json:"queries_sat"`
 	QUnsat        int               `json:"queries_unsat"`
 	QUnknown      int               `json:"queries_unknown"`
+	FlatQueries   int               `json:"queries_one_shot"`
 	SolverTimeS   float64           `json:"solver_time_s"`
 	WallS         float64           `json:"wall_s"`
 	Steps         int64             `json:"ssa_steps"`
@@ -86,6 +87,8 @@ func main() {
 		poolAdv   = flag.Bool("pool-adversarial", false, "sync.Pool.Get may return any pooled object or a fresh one")
 		verbose   = flag.Bool("v", false, "verbose")
 		jobsFile  = flag.String("jobs", "", "JSON list of harness jobs (per-harness options)")
+		flatSolver = flag.String("flat-solver", "", "solver for one-shot re-decisions (default: same as -solver; cvc5 = integer encoding of bit-vectors)")
+		incTimeout = flag.Int("inc-timeout-ms", 2500, "time slice of the incremental solver before a query is re-decided one-shot")
 		pkgs      multiFlag
 		harnesses multiFlag
 		paramFl   multiFlag
@@ -207,7 +210,7 @@ func main() {
 			}
 			poolAdversarial = j.PoolAdversarial
 			o := runOpts{solver: *solverBin, timeoutMs: *timeoutMs, unwind: *unwind, allocLimit: j.AllocLimit, maxPaths: j.MaxPaths,
-				budgetS: j.BudgetS, preempt: j.Preempt, nTraces: *nTraces, traceEvery: *traceEv, verbose: *verbose, noSummaries: j.NoSummaries}
+				budgetS: j.BudgetS, preempt: j.Preempt, nTraces: *nTraces, traceEvery: *traceEv, verbose: *verbose, noSummaries: j.NoSummaries, incTimeoutMs: *incTimeout, flatSolver: *flatSolver}
 			if j.Unwind > 0 {
 				o.unwind = j.Unwind
 			}
@@ -241,7 +244,7 @@ func main() {
 			fatal("harness %s not found", h)
 		}
 		res := runHarness(prog, buildPkg, fn, h, runOpts{solver: *solverBin, timeoutMs: *timeoutMs, unwind: *unwind, allocLimit: *allocLim,
-			maxPaths: *maxPaths, budgetS: *budgetS, preempt: *preempt, nTraces: *nTraces, traceEvery: *traceEv, smtLog: *smtLog, verbose: *verbose})
+			maxPaths: *maxPaths, budgetS: *budgetS, preempt: *preempt, nTraces: *nTraces, traceEvery: *traceEv, smtLog: *smtLog, verbose: *verbose, incTimeoutMs: *incTimeout, flatSolver: *flatSolver})
 		results = append(results, res)
 		if len(res.Violations) > 0 {
 			exit = 1
@@ -280,15 +283,24 @@ type runOpts struct {
 	smtLog     string
 	verbose    bool
 	noSummaries bool
+	incTimeoutMs int
+	flatSolver   string
 }
 
 func runHarness(prog *ssa.Program, buildPkg func(*ssa.Package), fn *ssa.Function, name string, o runOpts) HarnessResult {
 	t0 := time.Now()
 	args := []string{"-in"}
 	if strings.Contains(o.solver, "cvc5") {
-		args = []string{"--incremental", "--lang=smt2", fmt.Sprintf("--tlimit-per=%d", o.timeoutMs)}
+		// integer encoding of bit-vector arithmetic (mod 2^k semantics preserved): decides
+		// the offset/length arithmetic of buffer code that stalls a bit-blaster
+		args = []string{"--incremental", "--lang=smt2", "--produce-models", "--solve-bv-as-int=sum",
+			fmt.Sprintf("--tlimit-per=%d", o.timeoutMs)}
 	}
-	solver, err := NewSolver(o.solver, args, o.timeoutMs, o.smtLog)
+	incTimeout := o.timeoutMs
+	if strings.Contains(o.solver, "z3") && incTimeout > o.incTimeoutMs {
+		incTimeout = o.incTimeoutMs
+	}
+	solver, err := NewSolver(o.solver, args, incTimeout, o.smtLog)
 	if err != nil {
 		fatal("solver: %v", err)
 	}
@@ -306,6 +318,14 @@ func runHarness(prog *ssa.Program, buildPkg func(*ssa.Package), fn *ssa.Function
 	tFalse = mk(OpConst, 0, 0, "")
 
 	e := NewEngine(solver)
+	if strings.Contains(o.solver, "z3") {
+		e.flatBin = o.solver
+		if o.flatSolver != "" {
+			e.flatBin = o.flatSolver
+		}
+		e.flatTimeoutMs = o.timeoutMs
+	}
+	flat = flatStats{}
 	e.unwind = o.unwind
 	e.allocLimit = o.allocLimit
 	e.maxTraces = o.nTraces
@@ -417,8 +437,9 @@ func runHarness(prog *ssa.Program, buildPkg func(*ssa.Package), fn *ssa.Function
 		}
 	}
 	res := HarnessResult{Harness: name, Paths: e.paths, OkPaths: e.okPaths, Infeasible: e.infeasiblePaths, Decisions: e.decisionsTotal,
-		Queries: solver.queries, QSat: solver.nSat, QUnsat: solver.nUnsat, QUnknown: solver.nUnknown,
-		SolverTimeS: solver.solveTime.Seconds() + solver.syncTime.Seconds(), WallS: time.Since(t0).Seconds(), Steps: in.steps,
+		Queries: solver.queries + flat.queries, QSat: solver.nSat + flat.sat, QUnsat: solver.nUnsat + flat.unsat, QUnknown: solver.nUnknown,
+		FlatQueries: flat.queries,
+		SolverTimeS: solver.solveTime.Seconds() + solver.syncTime.Seconds() + flat.time.Seconds(), WallS: time.Since(t0).Seconds(), Steps: in.steps,
 		Violations: e.violations, Inconclusive: e.inconclusive, Covers: e.covers, Traces: e.traces, Samples: e.samples,
 		Functions: sortedKeys(e.funcsExecuted), Intrinsics: sortedKeys(e.intrinsicsHit), Stubs: sortedKeys(e.stubsHit),
 		Assumptions: sortedKeys(e.assumptions), Summarised: sortedKeys(e.summarised), Exhaustive: exhaustive && len(e.inconclusive) == 0, Unwind: e.unwind, Terms: len(termList)}
